@@ -107,6 +107,34 @@ Definition vaddat (s : vec) (index : Z) (d : option (list N)) : res (vec * vobs 
       end
   end.
 
+(* ---- qvector_addat when `data` is the address of one of the vector's own elements ----
+   (the pointer getat(j, newmem=false) returns, handed back as the new element; after the repair)
+     own = data lies inside data[0 .. num*objsize);  ownidx = (data - vector->data) / objsize   = the position j names
+     [growth, shift exactly as in vaddat]
+     if (ownidx >= (size_t)index) ownidx++;                  the shift moved that element one slot up
+     memcpy(data + index*objsize, data + ownidx*objsize, objsize);
+   jj: the position the index j names (vget_index); the function is only called when getat(j) returned an element. *)
+Definition vaddself_at (s : vec) (index : Z) (jj : Z) : res (vec * vobs cell) :=
+  let index := if (index <? 0)%Z then int_plus_size index (vnum s) else index in
+  if (Z.of_nat (vnum s) <? vec_u64 index)%Z then Ok (s, VORefused VERANGE)
+  else
+    let s1 := if vmax s <=? vnum s
+              then let newmax := match vpol s with
+                                 | VDouble => (vmax s + 1) * 2
+                                 | VLinear => vmax s + vinitnum s
+                                 | VExact => vmax s + 1
+                                 end in
+                   fst (vresize s newmax)
+              else s in
+    match vdata s1 with
+    | None => Crash
+    | Some b =>
+      bind (vshift_up (Z.to_nat (int_of_size (vnum s1) - index)) index (vobjsize s1) b) (fun b1 =>
+      let own := if (index <=? jj)%Z then (jj + 1)%Z else jj in
+      bind (vmemcpy b1 (size_of_int index * vobjsize s1) (size_of_int own * vobjsize s1) (vobjsize s1)) (fun b2 =>
+      Ok (vset_data s1 b2 (S (vnum s1)), VOBool true)))
+    end.
+
 (* ---- get_at / remove_at (static helpers) ---- *)
 Definition vget_index (s : vec) (index : Z) : verr + Z :=
   let index := if (index <? 0)%Z then int_plus_size index (vnum s) else index in
@@ -241,6 +269,12 @@ Definition vstep (s : vec) (o : vop) : res (vec * vobs cell) :=
   | VReverse => vreverse s
   | VToArray => vtoarray s
   | VWalk st n => bind (vwalk n s st []) (fun r => Ok (s, VOWalk (fst r) (snd r)))
+  end.
+(* addat(vector, index, getat(vector, j, false)): getat refuses exactly like every indexed access, and then nothing is added *)
+Definition vaddself (s : vec) (index j : Z) : res (vec * vobs cell) :=
+  match vget_index s j with
+  | inl e => Ok (s, VORefused e)
+  | inr jj => vaddself_at s index jj
   end.
 Fixpoint vrun (s : vec) (h : list vop) : res (vec * list (vobs cell)) :=
   match h with
